@@ -235,46 +235,60 @@ func VHC02Schedule() {
 }
 
 // VHC02Selectors: each selector in the order given, per value; BEGINFILE sees the
-// selected root.
+// selected root; $index restarts for every selected array.
 func VHC02Selectors() {
-	nsel := vh.Choose("nsel", 3)
-	sels := []string{"$.s1", "$.s2"}[:nsel]
+	nsel := vh.Choose("nsel", 4)
+	order := vh.Choose("order", 2)
+	all := []string{"$.s1", "$.s2", "$.s3"}
+	if order == 1 {
+		all = []string{"$.s3", "$.s1", "$.s2"}
+	}
+	sels := all[:nsel]
 	p1 := vh.Bool("p1")
 	p2 := vh.Bool("p2")
 	doc := func(tag string) any {
 		return map[string]any{
-			"s1": []any{map[string]any{"t": tag + "a", "p": p1}, map[string]any{"t": tag + "b", "p": p2}},
+			"s1": []any{map[string]any{"t": tag + "a", "p": p1, "e": true}, map[string]any{"t": tag + "b", "p": p2, "e": true}},
 			"s2": map[string]any{"t": tag + "o", "p": true},
+			"s3": []any{map[string]any{"t": tag + "c", "p": true, "e": true}, map[string]any{"t": tag + "d", "p": p1, "e": true}, map[string]any{"t": tag + "f", "p": p2, "e": true}},
 			"t":  tag + "root", "p": true,
 		}
 	}
-	prog := "BEGINFILE { print 'BF', $ is array }\n$.p { print $.t }\nENDFILE { print 'EF', $ is array }\nEND { print 'E' }"
+	prog := "BEGINFILE { print 'BF', $ is array }\n$.p { print $.t }\n$.p && $.e { print 'i', $index }\nENDFILE { print 'EF', $ is array }\nEND { print 'E' }"
 	var out vh.Out
 	ds := &vh.DocStream{Items: []any{doc("x"), doc("y")}}
 	_, err := lang.EvalProgram(prog, []lang.InputFile{{Name: "f", Reader: ds}}, sels, &out, false)
 	k := legal(err, "EvalProgram")
 	want := ""
+	elem := func(on bool, t string, i int) {
+		if on {
+			want += t + "\ni " + itoa(i) + "\n"
+		}
+	}
 	for _, tag := range []string{"x", "y"} {
 		if nsel == 0 {
 			want += "BF false\n" + tag + "root\nEF false\n"
 			continue
 		}
-		for si := 0; si < nsel; si++ {
-			if si == 0 {
+		for _, sel := range sels {
+			switch sel {
+			case "$.s1":
 				want += "BF true\n"
-				if p1 {
-					want += tag + "a\n"
-				}
-				if p2 {
-					want += tag + "b\n"
-				}
+				elem(p1, tag+"a", 0)
+				elem(p2, tag+"b", 1)
 				want += "EF true\n"
-			} else {
+			case "$.s2":
 				want += "BF false\n" + tag + "o\nEF false\n"
+			case "$.s3":
+				want += "BF true\n"
+				elem(true, tag+"c", 0)
+				elem(p1, tag+"d", 1)
+				elem(p2, tag+"f", 2)
+				want += "EF true\n"
 			}
 		}
 	}
 	want += "E\n"
 	vh.Reach("selectors evaluated")
-	vh.Assert(k == OK && out.String() == want, "C02: every value is processed once per selector, in the order given")
+	vh.Assert(k == OK && out.String() == want, "C02: every value is processed once per selector, in the order given, $index counting from 0 in every selected array")
 }
